@@ -12,3 +12,8 @@ print("known hits", ctx.known_hits)
 print("broken", len(ctx.broken))
 for b in ctx.broken[:15]: print("  ", str(b)[:700])
 print("wall", ctx.cov.get("evaluations"))
+seenk=set()
+for k,_,rp in ctx.violations:
+    kk=k.split("|")[2] if k.count("|")>=2 else k
+    if kk in seenk: continue
+    seenk.add(kk); print(k, {a:b for a,b in rp.items() if a!="x"})
